@@ -188,6 +188,10 @@ pub fn run_c17(cfg: &Cfg) {
             (format!("(?>{})", esc), 0, false),
             (format!("({})\\1", esc), 0, true),
             (format!("(?<=\u{1}){}", esc), 1, false),
+            // the escaped text as a direct sibling of a non-literal easy node inside a fancy pattern: both land in
+            // one delegated run (after the last / before the first hard node)
+            (format!("(?=)[\u{1}x]{}", esc), 2, false),
+            (format!("{}[\u{1}b](?=)", esc), 3, false),
         ];
         let texts: Vec<String> = vec![
             st.clone(),
@@ -230,7 +234,30 @@ pub fn run_c17(cfg: &Cfg) {
             for t in &texts {
                 s.count("escape_search_cases");
                 let needle = if *doubled { format!("{}{}", st, st) } else { st.clone() };
-                let want: Option<(usize, usize)> = if *lead == 1 {
+                let want: Option<(usize, usize)> = if *lead >= 2 {
+                    // first occurrence with the required neighbour; the neighbour is part of the match
+                    let mut from = 0;
+                    let mut found = None;
+                    while from <= t.len() {
+                        let k = match t[from..].find(&needle) {
+                            Some(k) => k,
+                            None => break,
+                        };
+                        let at = from + k;
+                        let end = at + needle.len();
+                        let bytes = t.as_bytes();
+                        if *lead == 2 && at >= 1 && (bytes[at - 1] == 1 || bytes[at - 1] == b'x') {
+                            found = Some((at - 1, end));
+                            break;
+                        }
+                        if *lead == 3 && end < t.len() && (bytes[end] == 1 || bytes[end] == b'b') {
+                            found = Some((at, end + 1));
+                            break;
+                        }
+                        from = at + t[at..].chars().next().map(|c| c.len_utf8()).unwrap_or(1);
+                    }
+                    found
+                } else if *lead == 1 {
                     // look-behind host: first occurrence preceded by U+0001
                     let mut from = 0;
                     let mut found = None;
